@@ -231,11 +231,24 @@ func runC02(r *core.Run) {
 		o := &verify.Options{ExpectedUefiSha384: digest, RootsOfTrust: roots, Now: now}
 		name := "verify.Endorsement/digest-only"
 		var err error
+		subject, subjectLE, endorsedDigest := endorsement, le, g.Digest
+		if r.Chance(20, "endorsement-without-digest?") {
+			// a validly signed endorsement that carries no firmware digest at all (the field is
+			// optional on the wire): it cannot equal any digest the caller expects
+			g2 := proto.Clone(g).(*epb.VMGoldenMeasurement)
+			g2.Digest = nil
+			subject = Reassemble(g2, nil, cur.Key, 0)
+			subjectLE = &epb.VMLaunchEndorsement{}
+			if uerr := proto.Unmarshal(subject, subjectLE); uerr != nil {
+				panic(uerr)
+			}
+			endorsedDigest, digClass = nil, digClass+"/endorsement-without-digest"
+		}
 		if r.Bool("digest-only-proto") {
 			name = "verify.EndorsementProto/digest-only"
-			err = verify.EndorsementProto(le, o)
+			err = verify.EndorsementProto(subjectLE, o)
 		} else {
-			err = verify.Endorsement(endorsement, o)
+			err = verify.Endorsement(subject, o)
 		}
 		outcome := "reject"
 		if err == nil {
@@ -243,7 +256,7 @@ func runC02(r *core.Run) {
 		}
 		r.Eval(fmt.Sprintf("%s|%s|tdx=%v|%s", name, digClass, tdxWorld, outcome), digClass != "right")
 		r.Eventf("digest-only entry=%s digest=%s -> %s", name, digClass, outcome)
-		if err == nil && !bytes.Equal(digest, g.Digest) {
+		if err == nil && !bytes.Equal(digest, endorsedDigest) {
 			r.Fail("accept-digest-mismatch", name, "%s accepted although the expected firmware digest (%s) differs from the endorsed one", name, digClass)
 		}
 	}
